@@ -231,9 +231,15 @@ CHECKS = {
                 "process.evaluate and before returning; initialize() "
                 "empties every list any method grows (under a guard that "
                 "is None-equivalent to the list), the collections grow in "
-                "the same block, and initialize() returns to real mode.",
+                "the same block, and initialize() returns to real mode; "
+                "evaluate() binds the documented instance quantities to "
+                "run_ode / j_from_ode, stops exactly on an out-of-range "
+                "case, records each continuing case when collecting and "
+                "aggregates by mean / exp(mean(log(J+1)))-1; "
+                "get_differentials replaces each collection by exactly its "
+                "own concatenation.",
         "design_ref": "DESIGN.md section 4, C11",
-        "note": "Decides D11.1-D11.6 (controller purity = C16 D16.6). Does not decide "
+        "note": "Decides D11.1-D11.8 (controller purity = C16 D16.6). Does not decide "
                 "history dependence that lives inside scipy/numba. "
                 "Exceptional paths are not modelled.",
         "technique": "effects / field-write analysis + CFG "
